@@ -4,7 +4,8 @@ from common import *  # noqa: F401,F403
 RULE = ("random valid curves (polynomial and rational, scalar and vector points, degree 0..4, mixed multiplicities, 0 as interior value "
         "forced in a share of cases) with node lists: new nodes, nodes equal to existing knots, repeated nodes, the value 0, several at once, "
         "end nodes; invalid requests: multiplicity above degree+1, nodes outside the interval.  Non-trivial: at least one node really "
-        "inserted into a curve of degree >= 1; distinct = distinct (U,P,W,nodes).")
+        "inserted into a curve of degree >= 1; distinct = distinct (U,P,W,nodes)."
+        " Also: one ndarray object stored at two indices (closed curves), both end knots in one request, float twin of every request first.")
 EXPLANATION = ("L2: state after Curve.knot_insert vs model (exact) and heavy.Operations.knot_insert matrix vs model matrix; "
                "L3: `rf.eq before after` decided span-by-span on polynomial coefficients (every u at once), knot multiset, row-stochastic matrix, "
                "unchanged state after a refused request.")
